@@ -117,6 +117,7 @@ class Item:
         self.closures, self.loops, self.edits = {}, {}, []
         self.prologue = []
         self.ghosts = []
+        self.vis = None
         self.nth = 0
         self.name = None  # optional short id
 
@@ -180,6 +181,8 @@ def read_template(unit):
                                 it.kind = t2[1]
                             elif d2 == "name":
                                 it.name = t2[1]
+                            elif d2 == "vis":
+                                it.vis = t2[1]
                             elif d2 == "nth":
                                 it.nth = int(t2[1])
                             elif d2 == "props":
@@ -331,6 +334,9 @@ def assemble(unit, canary=False, mutant=None, check_fp=True):
             text = re.sub(r"\bpub(\([a-z]+\))?\s+", "", text)
             text = re.sub(r"(?m)^\s*#\[[^\]]*\]\s*$", "", text)
             text = re.sub(r"(?m)^\s*///.*$", "", text)
+            if it.vis == "pub":
+                # all-public variant (needed when a trait impl's `open spec fn` mentions the fields)
+                text = "pub " + re.sub(r"(?m)^(\s+)([a-z_][A-Za-z0-9_]*\s*:)", r"\1pub \2", text)
             info["sha256"] = hashlib.sha256(src[x["kw_start"]:x["end"]]).hexdigest()
             A.add(text + "\n", {"kind": "typedef", "item": it.id, "file": it.file, "tags": []})
             A.items.append(info)
